@@ -159,7 +159,8 @@ def boolean_shapes(depth2=True, with_const=True):
           ("Iff", a, b), ("Ite", a, b, c), ("Not", lt), ("Iff", a, lt), ("Ite", lt, a, b)]
     out = list(d1)
     if with_const:
-        out += [("And", a, T), ("Or", a, F), ("Implies", T, a), ("Iff", a, F), ("Ite", T, a, b), ("Not", T)]
+        out += [("And", a, T), ("Or", a, F), ("Implies", T, a), ("Iff", a, F), ("Ite", T, a, b), ("Not", T),
+                ("And", a, F), ("Or", a, T), ("Implies", a, F), ("And", ("Or", a, b), F), ("Or", ("And", a, b), ("Not", T))]
     if depth2:
         for inner in d1:
             out += [("Not", inner), ("And", inner, c), ("Or", c, inner), ("Implies", inner, c), ("Implies", c, inner),
